@@ -1,9 +1,9 @@
 #!/bin/bash
 # prepare a scratch git worktree of /repo (HEAD) that can build and run the project's test suite
-# usage: bin/mkwt.sh /tmp/wt-name
+# usage: bin/mkwt.sh /tmp/wt-name [commit]
 set -e
 D=$1
-git -C /repo worktree add -f "$D" HEAD >/dev/null 2>&1
+git -C /repo worktree add -f --detach "$D" "${2:-HEAD}" >/dev/null 2>&1
 # bring over the untracked build scaffolding (autotools output, gtest) but no object files
 rsync -a --ignore-existing --exclude '.git' --exclude '*.o' --exclude '*.lo' --exclude '*.la' --exclude '.libs' --exclude '*.a' --exclude 'test/test_all' --exclude 'test/test_fuzz' \
   --exclude '*.log' --exclude '*.trs' --exclude 'autom4te.cache' /repo/ "$D"/
